@@ -287,6 +287,8 @@ func (e *Exec) streamRun(fr *Frame, st *BState, x *ssa.Call) SV {
 		xs.reach = and(out.reach, isErr)
 		wrapped := e.freshSV(errT, "stream.err", xs.reach, false).(*IfaceV)
 		e.assume(not(eq(wrapped.Tag, intLit(0))))
+		// protocol: Run returns an error that wraps the callback's error (its message contains the callback's)
+		e.assume(implies(xs.reach, app(SBool, "str.contains", errMsg(wrapped), errMsg(errv.(*IfaceV)))))
 		xs.ghost["cbErr"] = errv
 		exits = append(exits, exit{xs, wrapped})
 	}
